@@ -36,9 +36,20 @@ from calmjs.parse.ruletypes import (
     BlockComment as RuleTypeBlockComment,
 )
 from calmjs.parse.lexers.es5 import PATT_LINE_CONTINUATION
+from calmjs.parse.unicode_chars import (
+    LETTER,
+    DIGIT,
+    COMBINING_MARK,
+    CONNECTOR_PUNCTUATION,
+)
 
+# any character that may be part of an identifier name, keyword or number
+_word = (
+    r'(?:[\w$]|' + LETTER + r'|' + DIGIT + r'|' + COMBINING_MARK + r'|' +
+    CONNECTOR_PUNCTUATION + r')')
 # a '/' followed by the '/' of a regex literal would start a line comment
-required_space = re.compile(r'^(?:\w\w|\+\+|\-\-|\w\$|\$\w|//)$')
+required_space = re.compile(
+    r'^(?:' + _word + _word + r'|\+\+|\-\-|//)$')
 
 # the various assignments symbols; for dealing with pretty spacing
 assignment_tokens = {
